@@ -184,6 +184,10 @@ def schema_desc(spec, extra=False, outer=False):
         if v['kind'] in ('str', 'list', 'dict', 'arr') or v['div'] in (
                 'set_value', 'null'):
             leaf['_updater'] = 'set'
+        if v['div'] in ('set', None) and v['kind'] in ('list', 'arr'):
+            # in-place updaters: a daughter's update must not reach objects
+            # its sister holds
+            leaf['_updater'] = 'vv_extend' if v['kind'] == 'list' else 'vv_iadd'
         if v['div'] == 'set_value':
             leaf['_sv'] = v['sv']
         if v['div'] == 'user':
@@ -450,6 +454,12 @@ def run_case(spec):
             if v['kind'] == 'int' and not v.get('outer') and v['div'] in (
                     'set', None, 'split', 'zero', 'binomial', 'user'):
                 put(act, v['path'], 1)
+        for v in spec['vars']:
+            if v['div'] in ('set', None) and not v.get('outer'):
+                if v['kind'] == 'list':
+                    put(act, v['path'], [99])
+                elif v['kind'] == 'arr':
+                    put(act, v['path'], 1)
         if spec['dv']:
             act['dv'] = {'k': {'n': 5}}
         if not act:
